@@ -110,7 +110,10 @@ func (p c13) Run(runseed uint64, tier string, acc *Acc) []*core.Violation {
 			acc.Inc("procs/twin-shapes-in-one-process")
 		}
 		acc.Mark(core.Mix(res.fp, 0x9c5), 1)
-		if acc.Counters["procs/cases"] == 1 {
+		if c.Tasks[0].W.Huge && c.Tasks[0].W.Page == 64 && c.Tasks[0].W.Shape == "kv" {
+			acc.Inc("procs/giant-gzip-page")
+		} else if acc.Counters["procs/sampled"] == 0 {
+			acc.Inc("procs/sampled")
 			acc.Sample(c, 4)
 		}
 		if res.vio != nil {
